@@ -248,15 +248,17 @@ func (self Value) FieldByName(name string) (v Value) {
 	}
 	for it.HasNext() {
 		i, t, s, e := it.Next(UseNativeSkipForGet)
+		if it.Err != nil {
+			// the span of a field that failed to read is not valid, even if its id matches
+			v = errValue(meta.ErrRead, "", it.Err)
+			goto ret
+		}
 		if i == f.ID() {
 			if t != f.Type().Type() {
 				v = errValue(meta.ErrDismatchType, fmt.Sprintf("field '%s' expects type %s, buf got type %s", f.Name(), f.Type().Type(), t), nil)
 				goto ret
 			}
 			v = self.slice(s, e, f.Type())
-			goto ret
-		} else if it.Err != nil {
-			v = errValue(meta.ErrRead, "", it.Err)
 			goto ret
 		}
 	}
